@@ -75,6 +75,7 @@ def gen(rng, tier):
                 for cont in ("stack", "locked"):
                     cs.append(Case("serde_fixed %s %d %s %s" % (cont, n, fmt, hx(p)), cls="container-decode/%s/%s" % (cont, fmt), expect="ok" if k == n else "err",
                                    meta={"why": "a %d-byte %s container decoded (%s) from %d bytes" % (n, cont, fmt, k)}))
+    cs.append(Case("alias_lengths", cls="container-alias-lengths", expect="ok auth.Key=32 auth.Mac=32 secretbox.Key=32 generichash.Key=32 generichash.Hash=32 kdf.Key=32 kdf.Context=8 onetimeauth.Key=32 onetimeauth.Mac=16 sign.PublicKey=32 sign.SecretKey=64 sign.Signature=64", meta={"no_spec": True, "why": "fixed-length aliases of the protected modules vs libsodium's constants"}))
     # resize and clone behave like Vec's in every resizable container (shrink to a prefix, grow with zeros, clone keeps the bytes)
     for n in (0, 1, 16, 33, 100, 4096, 4097):
         data = rbytes(rng, n)
